@@ -59,6 +59,9 @@ struct Case {
     write_cap: usize,
     /// one transient transport deviation (Interrupted once / one short write) at an operation
     fault: Option<crate::sim::Fault>,
+    /// sequence id of the request (the large message then starts at another point of the
+    /// server's id counter, in particular right before it wraps)
+    req_seq: u8,
 }
 
 fn run_case(c: &Case, st: &mut Stats) -> Result<(), Violation> {
@@ -93,6 +96,9 @@ fn run_case(c: &Case, st: &mut Stats) -> Result<(), Violation> {
             (vec![q(b"big"), ping()], vec![WOp::Start(cols), WOp::WriteRow(vec![Val::I32(1)]), WOp::Finish])
         }
     };
+    let mut cmds = cmds;
+    let k = cmds.len() - 2;
+    cmds[k].seq = c.req_seq;
     let conv = Conv::new(cmds);
     let s = conv.stream();
     let stream = Arc::new(s.bytes);
@@ -208,12 +214,12 @@ fn cases(quick: bool) -> Vec<Case> {
                 let l = (*k as i64 * MAXP as i64 + d) as usize;
                 // one text cell filling the message
                 if let Some(x) = cell_for_total(l) {
-                    v.push(Case { label: format!("text row, one cell, message {}*(2^24-1){:+} ({})", k, d, capname), shape: Shape::TextCells(vec![x]), msg_len: l, write_cap: *cap, fault: None });
+                    v.push(Case { label: format!("text row, one cell, message {}*(2^24-1){:+} ({})", k, d, capname), shape: Shape::TextCells(vec![x]), msg_len: l, write_cap: *cap, fault: None, req_seq: 0 });
                 }
                 // binary row: header + 1 bitmap byte + blob
                 if let Some(x) = cell_for_total(l - 2) {
                     if *cap == usize::MAX || *d % 3 == 0 {
-                        v.push(Case { label: format!("binary row, one blob, message {}*(2^24-1){:+} ({})", k, d, capname), shape: Shape::BinCell(x), msg_len: l, write_cap: *cap, fault: None });
+                        v.push(Case { label: format!("binary row, one blob, message {}*(2^24-1){:+} ({})", k, d, capname), shape: Shape::BinCell(x), msg_len: l, write_cap: *cap, fault: None, req_seq: 0 });
                     }
                 }
             }
@@ -228,17 +234,17 @@ fn cases(quick: bool) -> Vec<Case> {
                 let first_total = (*k as i64 * MAXP as i64 - off) as usize;
                 if let Some(a) = cell_for_total(first_total) {
                     let b = 300usize;
-                    v.push(Case { label: format!("text row, two cells, packet limit {} bytes into the second cell ({}, k={})", off, capname, k), shape: Shape::TextCells(vec![a, b]), msg_len: first_total + 3 + b, write_cap: *cap, fault: None });
+                    v.push(Case { label: format!("text row, two cells, packet limit {} bytes into the second cell ({}, k={})", off, capname, k), shape: Shape::TextCells(vec![a, b]), msg_len: first_total + 3 + b, write_cap: *cap, fault: None, req_seq: 0 });
                 }
             }
             // a one-byte cell straddling the limit, then a third cell
             let first_total = k * MAXP - 1;
             if let Some(a) = cell_for_total(first_total) {
-                v.push(Case { label: format!("text row, three cells, one-byte cell straddles the limit ({}, k={})", capname, k), shape: Shape::TextCells(vec![a, 1, 40]), msg_len: first_total + 2 + 41, write_cap: *cap, fault: None });
+                v.push(Case { label: format!("text row, three cells, one-byte cell straddles the limit ({}, k={})", capname, k), shape: Shape::TextCells(vec![a, 1, 40]), msg_len: first_total + 2 + 41, write_cap: *cap, fault: None, req_seq: 0 });
             }
             // three cells that together cross the limit, each well below it
             let third = k * MAXP / 3;
-            v.push(Case { label: format!("text row, three cells of a third of the limit each (+5) ({}, k={})", capname, k), shape: Shape::TextCells(vec![third, third, third + 5]), msg_len: 3 * 4 + 3 * third + 5, write_cap: *cap, fault: None });
+            v.push(Case { label: format!("text row, three cells of a third of the limit each (+5) ({}, k={})", capname, k), shape: Shape::TextCells(vec![third, third, third + 5]), msg_len: 3 * 4 + 3 * third + 5, write_cap: *cap, fault: None, req_seq: 0 });
         }
         // a row assembled from very many small writes: the packet limit falls at different offsets
         // of a cell (inside its one-byte length prefix, inside its data) as the cell size varies
@@ -246,17 +252,34 @@ fn cases(quick: bool) -> Vec<Case> {
             for w in if quick { vec![239usize, 240, 241, 1021] } else { vec![238, 239, 240, 241, 242, 250, 251, 252, 1021, 65535] } {
                 let n = MAXP / (w + if w < 251 { 1 } else { 3 }) + 40;
                 let per = w + if w < 251 { 1 } else { 3 };
-                v.push(Case { label: format!("text row of {} cells of {} bytes each ({})", n, w, capname), shape: Shape::TextCells(vec![w; n]), msg_len: n * per, write_cap: *cap, fault: None });
+                v.push(Case { label: format!("text row of {} cells of {} bytes each ({})", n, w, capname), shape: Shape::TextCells(vec![w; n]), msg_len: n * per, write_cap: *cap, fault: None, req_seq: 0 });
+            }
+        }
+        // exact multiples whose packets straddle the wrap of the sequence counter: the empty
+        // closing packet then carries id 0 or 1
+        if *cap == usize::MAX {
+            for k in [1usize, 2] {
+                for rs in if quick { vec![249u8, 250, 251, 252] } else { (244u8..=255).collect() } {
+                    let l = k * MAXP;
+                    if let Some(x) = cell_for_total(l) {
+                        v.push(Case { label: format!("text row, one cell, message {}*(2^24-1), request sequence id {}", k, rs), shape: Shape::TextCells(vec![x]), msg_len: l, write_cap: *cap, fault: None, req_seq: rs });
+                    }
+                    if !quick || rs % 2 == 0 {
+                        if let Some(x) = cell_for_total(l - 2) {
+                            v.push(Case { label: format!("binary row, one blob, message {}*(2^24-1), request sequence id {}", k, rs), shape: Shape::BinCell(x), msg_len: l, write_cap: *cap, fault: None, req_seq: rs });
+                        }
+                    }
+                }
             }
         }
         // large ERR message and column name
         for d in if quick { vec![0i64] } else { vec![-1i64, 0, 1] } {
             let l = (MAXP as i64 + d) as usize;
-            v.push(Case { label: format!("ERR packet of (2^24-1){:+} bytes ({})", d, capname), shape: Shape::ErrMsg(l - 9), msg_len: l, write_cap: *cap, fault: None });
+            v.push(Case { label: format!("ERR packet of (2^24-1){:+} bytes ({})", d, capname), shape: Shape::ErrMsg(l - 9), msg_len: l, write_cap: *cap, fault: None, req_seq: 0 });
         }
         let nl = (1 << 24) + 10;
         // def(4) + schema(1) + table(1) + org_table(1) + name(9+nl) + org_name(1) + 0x0c(1) + 12 fixed
-        v.push(Case { label: format!("column name of 2^24+10 bytes ({})", capname), shape: Shape::ColName(nl), msg_len: 4 + 1 + 1 + 1 + 9 + nl + 1 + 1 + 12, write_cap: *cap, fault: None });
+        v.push(Case { label: format!("column name of 2^24+10 bytes ({})", capname), shape: Shape::ColName(nl), msg_len: 4 + 1 + 1 + 1 + 9 + nl + 1 + 1 + 12, write_cap: *cap, fault: None, req_seq: 0 });
     }
     v
 }
@@ -298,10 +321,10 @@ impl Transient {
         for (k, d) in if quick { vec![(2usize, 0i64)] } else { vec![(1usize, 0i64), (2, 0), (2, 5)] } {
             let l = (k as i64 * MAXP as i64 + d) as usize;
             if let Some(x) = cell_for_total(l) {
-                bases.push(Case { label: format!("text row, one cell, message {}*(2^24-1){:+}", k, d), shape: Shape::TextCells(vec![x]), msg_len: l, write_cap: usize::MAX, fault: None });
+                bases.push(Case { label: format!("text row, one cell, message {}*(2^24-1){:+}", k, d), shape: Shape::TextCells(vec![x]), msg_len: l, write_cap: usize::MAX, fault: None, req_seq: 0 });
             }
             if let Some(x) = cell_for_total(l - 2) {
-                bases.push(Case { label: format!("binary row, one blob, message {}*(2^24-1){:+}", k, d), shape: Shape::BinCell(x), msg_len: l, write_cap: usize::MAX, fault: None });
+                bases.push(Case { label: format!("binary row, one blob, message {}*(2^24-1){:+}", k, d), shape: Shape::BinCell(x), msg_len: l, write_cap: usize::MAX, fault: None, req_seq: 0 });
             }
         }
         for b in bases {
@@ -472,7 +495,7 @@ pub fn build(quick: bool) -> Check {
     Check {
         id: "C04",
         level: "model_checking",
-        rule: format!("{} large-message scenarios on the real run_on: logical messages of k*(2^24-1)+d bytes (k in {{1{}}}, d in [-6,6]) as a one-cell text row and as a binary row; two-cell rows with the packet limit falling -1..4 bytes into the second cell (inside its 3-byte length prefix, exactly between the cells, in its data); a one-byte cell straddling the limit; three cells each far below the limit; rows of ~70000 / ~16000 small cells (239..241, 1021 bytes; more sizes in thorough) so that the limit falls at varying offsets of a cell; ERR messages and a column name beyond 2^24 bytes; each under whole, 1 MiB and 65537-byte transport writes; two-packet messages again with one transient deviation (Interrupted once, a write accepting 1 byte / half) at each large transport write; followed by a small row and a sentinel PING. Plus every cell length 0..70000, and cells of 2^15..2^20+1 bytes alone and after 270 / 1500 small rows. Oracle: every header length equals the bytes that follow; the message is cut into floor(L/(2^24-1)) maximal packets plus one shorter (possibly empty) packet; consecutive sequence ids; strict decode returns exactly the bytes written. Non-trivial = message of at least 2^24-1 bytes.", n, ",2"),
+        rule: format!("{} large-message scenarios on the real run_on: logical messages of k*(2^24-1)+d bytes (k in {{1{}}}, d in [-6,6]) as a one-cell text row and as a binary row; two-cell rows with the packet limit falling -1..4 bytes into the second cell (inside its 3-byte length prefix, exactly between the cells, in its data); a one-byte cell straddling the limit; three cells each far below the limit; rows of ~70000 / ~16000 small cells (239..241, 1021 bytes; more sizes in thorough) so that the limit falls at varying offsets of a cell; ERR messages and a column name beyond 2^24 bytes; exact multiples requested with sequence ids 249..252 (thorough 244..255) so that the packets of the message straddle the wrap of the id counter; each under whole, 1 MiB and 65537-byte transport writes; two-packet messages again with one transient deviation (Interrupted once, a write accepting 1 byte / half) at each large transport write; followed by a small row and a sentinel PING. Plus every cell length 0..70000, and cells of 2^15..2^20+1 bytes alone and after 270 / 1500 small rows. Oracle: every header length equals the bytes that follow; the message is cut into floor(L/(2^24-1)) maximal packets plus one shorter (possibly empty) packet; consecutive sequence ids; strict decode returns exactly the bytes written. Non-trivial = message of at least 2^24-1 bytes.", n, ",2"),
         assumptions: vec!["message sizes are explored in a window around the packet limit, not exhaustively between 70000 and 2^24-7".into()],
         bounds: json!({"k": 2, "d_window": 6, "scenarios": n}),
         exhaustive: true,
